@@ -346,17 +346,19 @@ theorem parseEnumFields_fine : ∀ (f : Nat) (fs : List EnumField) (ts : List To
     unfold parseEnumFields
     split
     · rename_i fname hc
-      have hlt : (adv ts).length < ts.length := adv_len_lt h (by rw [hc]; simp)
-      have e1 := eat_fine (.punct '=') (adv_wfs h)
-      cases h1 : eat (.punct '=') (adv ts) with
-      | err p c => exact e1.err_of h1
-      | ok u ts1 =>
-        have k1 := e1.ok_of h1
-        have la1 := adv_len_le ts1
-        simp only
-        split
-        · exact (parseEnumFields_fine f _ _ (adv_wfs k1.1) (by omega)).mono (by omega)
-        · simp [PR.Fine]
+      split
+      · simp [PR.Fine]
+      · have hlt : (adv ts).length < ts.length := adv_len_lt h (by rw [hc]; simp)
+        have e1 := eat_fine (.punct '=') (adv_wfs h)
+        cases h1 : eat (.punct '=') (adv ts) with
+        | err p c => exact e1.err_of h1
+        | ok u ts1 =>
+          have k1 := e1.ok_of h1
+          have la1 := adv_len_le ts1
+          simp only
+          split
+          · exact (parseEnumFields_fine f _ _ (adv_wfs k1.1) (by omega)).mono (by omega)
+          · simp [PR.Fine]
     · exact ⟨h, Nat.le_refl _⟩
 
 theorem parseEnum_fine {ts : List Token} (σ : Schema) (h : WFS ts) :
